@@ -177,11 +177,11 @@ def run_shard(shard: Dict[str, Any], rep: Report) -> None:
     # adversarial key search (workload only): where the model can score reset instances, the greedy/lazy workloads
     # are played on the highest-scoring of 64 keys
     hard_keys = []
-    if P.has("key_score") and any(nm in extra for nm in ("greedy", "lazy")):
+    if P.has("key_score"):
         from jmon.common import decode
 
         scored = []
-        for j in range(64 if tier == "quick" else 256):
+        for j in range(256 if tier == "quick" else 1024):
             k_, ki_ = key_for(seed, shard["id"] + "|search", j)
             s_, _ = runner.reset(k_)
             scored.append((P.call("key_score", decode(s_)), ki_, k_))
@@ -189,9 +189,10 @@ def run_shard(shard: Dict[str, Any], rep: Report) -> None:
         hard_keys = [(k_, ki_) for _, ki_, k_ in scored[: (2 if tier == "quick" else 6)]]
         rep.count("adversarial_keys_searched", len(scored))
         for (k_, ki_) in hard_keys:
-            for nm in ("greedy", "lazy"):
-                if nm in extra:
-                    info = run_episode(runner, k_, ki_, extra[nm], rng, [mon], episode=900, max_steps=max(cap, 250))
+            for nm in ("greedy", "lazy", "complete", "masked"):
+                pol_ = extra.get(nm) or (nm if nm == "masked" else None)
+                if pol_ is not None:
+                    info = run_episode(runner, k_, ki_, pol_, rng, [mon], episode=900, max_steps=max(cap, 250))
                     rep.states += info["steps"] + 1
                     rep.transitions += info["steps"]
                     rep.count("adversarial_key_episodes")
